@@ -364,6 +364,28 @@ fn deep_part<'a>(tier: Tier, sys: &'a Sys) -> Part<'a, Sys> {
     }
 }
 
+fn alpha_modes(cfg: &Cfg) -> Vec<Op> {
+    super::c11::a_11_deep(cfg)
+}
+
+/// origin mode / margins / save-restore / alternate screen / resize chains with
+/// every accessor (dump() in particular) called at every state
+fn modes_part<'a>(tier: Tier, sys: &'a Sys) -> Part<'a, Sys> {
+    Part {
+        name: "origin-margins-save-deep",
+        sys,
+        cfgs: match tier {
+            Tier::Quick => cfgs(&[(3, 3), (2, 2)], &[None]),
+            Tier::Thorough => cfgs(&[(3, 3), (2, 2), (4, 3), (2, 4)], &[None, Some(0)]),
+        },
+        alphabet: &alpha_modes,
+        depth: tier.pick(5, 7),
+        seconds: tier.pick(15.0, 1800.0),
+        validated: false,
+        nontrivial: None,
+    }
+}
+
 fn make_sys(tier: Tier) -> Sys {
     let mut extreme = a_extreme();
     // sizes far from the tiny ones (the work is still what the call requests)
@@ -384,6 +406,7 @@ pub fn run(ctx: &Ctx) -> Report {
     run_part(ctx, &mut rep, &p);
     let plain = Sys { extreme: vec![], extreme_depth: 0, second: vec![] };
     run_part(ctx, &mut rep, &deep_part(ctx.tier, &plain));
+    run_part(ctx, &mut rep, &modes_part(ctx.tier, &plain));
     sweep(ctx, &mut rep);
     rep.extra.insert("extreme_alphabet_size".into(), json!(sys.extreme.len()));
     rep.rule = "BFS over op histories (all functions, truncated sequences, resizes incl. 17x2 and 2x9, every Changes treatment) in an overflow-checks + debug-assertions build; every state also gets all read accessors, the same history through TextCollector, and (up to the extreme-layer depth) every extreme-parameter input followed by 9 ordinary ops; plus every listed Unicode scalar fed from every parser state. Oracle: no panic, CPU-time watchdog, per-call allocation envelope".into();
@@ -407,6 +430,10 @@ pub fn replay(ctx: &Ctx, v: &Value) -> bool {
         return r.is_err();
     }
     let tier = if v["tier"] == "thorough" { Tier::Thorough } else { Tier::Quick };
+    if v["part"] == "origin-margins-save-deep" {
+        let plain = Sys { extreme: vec![], extreme_depth: 0, second: vec![] };
+        return replay_part(ctx, &modes_part(tier, &plain), v);
+    }
     if v["part"] == "alt-resize-save-deep" {
         let plain = Sys { extreme: vec![], extreme_depth: 0, second: vec![] };
         return replay_part(ctx, &deep_part(tier, &plain), v);
